@@ -29,9 +29,10 @@ Say(idx, clause) == PrintT(<<"R", idx, clause>>)
 Check == Done =>
   LET o == Data[tid].obs
       allowed == RefOutcomes(cs)
-  IN /\ (\E x \in allowed : x = o) \/ Say(tid, IF o = AlgOutcome /\ SubNamedConfigSelected THEN "ref-dev-subconfig-as-alg"
+  IN /\ (\E x \in allowed : x = o) \/ Say(tid, IF o = AlgOutcome /\ EnvConfigSectionLost THEN "ref-dev-envcfg-as-alg"
+                                                ELSE IF o = AlgOutcome /\ SubNamedConfigSelected THEN "ref-dev-subconfig-as-alg"
                                                 ELSE IF o = AlgOutcome /\ MethodParameterNamedConfig THEN "ref-dev-cfgparam-as-alg"
-                                                ELSE IF o = AlgOutcome /\ UnionDefaultDigits /\ o.out = "ok" THEN "ref-dev-uniondefault-as-alg"
+                                                ELSE IF o = AlgOutcome /\ UnionDefaultDigits /\ o.out \in {"ok", "raise"} THEN "ref-dev-uniondefault-as-alg"
                                                 ELSE IF o = AlgOutcome /\ AmbiguousSubOption /\ o.out = "reject" THEN "ref-dev-abbrev-as-alg"
                                                 ELSE IF o = AlgOutcome /\ HiddenButRequiredByPython /\ o.out = "crash" THEN "ref-dev-as-alg"
                                                 ELSE IF Deviation THEN "ref-dev-other" ELSE "ref")
